@@ -14,7 +14,8 @@ SCHED_TECH = ("stateless model checking of the implementation: preemption-bounde
 CHECKS = {
  "C09": dict(engine="engine-A", cat="model_checking", ref="DESIGN.md 4, 7/C09", note=SCHED_NOTE, tech=SCHED_TECH,
    text="every schedule of 28 closed drivers of the real engine/pool.ThreadPool (1-3 workers, 1-3 tasks single/burst, WaitAll, "
-        "JoinAll with a task that submits a task, resize sequences with tasks arriving from a second thread) within preemption "
+        "JoinAll with a task that submits a task, resize sequences incl. negative counts with tasks arriving from a second thread, the queue-filling "
+        "callback with threshold 1) within preemption "
         "bound 1-3 and free-choice bound 3 is executed; oracle: no deadlock/livelock while a worker exists and a task is queued, "
         "every task ran exactly once, WaitAll/JoinAll/SetWorkerCount post-conditions"),
  "C02": dict(engine="engine-A", also=["engine-B"], cat="model_checking", ref="DESIGN.md 4, 7/C02", note=SCHED_NOTE, tech=SCHED_TECH,
@@ -39,7 +40,9 @@ CHECKS = {
         "data) of its own payload, no panic, no happens-before race on any instrumented shared variable or lock-carrying struct field; plus (Engine B, "
         "sequential) for a 14-program corpus covering every statement and operator kind, at top level, inside a function called twice and inside a "
         "sink triggered twice: a reflective snapshot of the whole AST + runtime-component tree (unexported fields, spare capacity) is identical before "
-        "and after evaluation - the tree is shared by all concurrent invocations, so evaluation must not write to it"),
+        "and after evaluation - the tree is shared by all concurrent invocations, so evaluation must not write to it; and for sink-like rule sets "
+        "(0-9 sinks on test.* x 32 subsets of exact-kind sinks x 16 ordered event pairs) RuleIndex.Match returns exactly the matching sinks and "
+        "leaves the index (spare slice capacity included) untouched"),
  "C13": dict(engine="engine-A", also=["engine-B"], cat="model_checking", ref="DESIGN.md 4, 7/C13", note=SCHED_NOTE + "; the lexer goroutine of a Parse call is a free-running helper (single-producer/single-consumer pipe private to the call) whose accesses to instrumented variables are attributed to its owner thread for the race check", tech=SCHED_TECH,
    text="every schedule (preemption bound 1-3) of 17 drivers in which 2-3 threads run parser.Parse / ParseWithRuntime (and Validate+Eval of an "
         "interpolating string) on texts with if/elif/else, for, map literals, nested maps, a syntax error; scheduling points are the accesses to "
@@ -49,18 +52,19 @@ CHECKS = {
         "texts with characters the process has never lexed x {Parse, ParseWithRuntime}: a reflective snapshot of EVERY package-level variable of "
         "parser and interpreter (accessor generated from the working tree; the locked instance counter excepted) is identical before and after"),
  "C15": dict(engine="engine-A", cat="model_checking", ref="DESIGN.md 4, 7/C15", note=SCHED_NOTE + "; the debugger console is modelled by a driver thread that polls `status` (a yielding sleep) and answers every reported suspension with the next command of its script", tech=SCHED_TECH + " + exhaustive enumeration of breakpoint sets x command scripts under the default schedule",
-   text="(1) for 7 programs (straight line, function calls 1-2 deep, loop, try/raise, if/else, runtime error) every breakpoint subset of <= 2 "
+   text="(1) for 9 programs (straight line, function calls 1-2 deep, a call as argument of a call, nested block scopes, loop, try/raise, if/else, runtime error) every breakpoint subset of <= 2 "
         "lines x every command script of length <= 2 over {resume, stepin, stepover, stepout} plus stop-all variants is run on fresh real "
         "debuggers (about 3500 configurations) and compared with the undebugged run (result, log, final variables) and, with break-on-error off, "
         "with the suspension lines derived from the program's line trace; (1b) on a 12-line program every history of <= 2 (thorough 3) breakpoint "
-        "commands over {break, rmbreak, disablebreak} x lines {1, 2, 10, 12} + {rmbreak v, break vv:1, rmbreak vv}: the table reported by status "
+        "commands over {break, rmbreak, disablebreak} x lines {1, 2, 10, 12} + {rmbreak v, break vv:1, rmbreak vv} and of <= 4 (thorough 5) commands over "
+        "a reduced alphabet (two lines): the table reported by status "
         "must equal a reference map and the thread must suspend exactly at the lines the reference says are active; (2) 17 selected configurations are explored under every schedule "
         "with <= 2 (thorough 3) preemptions: all timings of the continue / stop command relative to the thread reaching its wait; oracle: the "
         "thread always leaves suspension (no deadlock / endless polling), no panic, same outcome as undebugged, with break-on-error off the sequence "
         "of suspension lines equals the one derived from the line trace under every schedule, no unordered access to a debugger field"),
  "C16": dict(engine="engine-A", cat="model_checking", ref="DESIGN.md 5.3, 7/C16", note="default schedule only (the property is about the command interface, not about timing); canonical state = status output, per-thread (running, error, stack depth, line), breakpoint table and global variables; the debugger lock is read off the vsched shim through an overlay-added export seam", tech="explicit-state breadth-first search over the real debugger object: a state is the command history that reaches it, successors are built on fresh objects by replay, de-duplicated on a canonical observable form, invariant evaluated after every command",
-   text="from 8 debugger states (nothing executed, program finished, thread suspended at top level / 1 / 2 calls deep / on an error with map "
-        "data / at the first-ever visit of a single-statement program by breakpoint and by break-on-start) every command line of a 140-390 line menu (10 commands + unknown, 0-4 arguments over valid/finished/zero/negative/huge/non-numeric "
+   text="from 11 debugger states (incl. a list variable with container paths as extract / inject targets, nested block scopes, a call inside a call argument; the original 8: (nothing executed, program finished, thread suspended at top level / 1 / 2 calls deep / on an error with map "
+        "data / at the first-ever visit of a single-statement program by breakpoint and by break-on-start)) every command line of a 140-390 line menu (10 commands + unknown, 0-4 arguments over valid/finished/zero/negative/huge/non-numeric "
         "thread ids, known/unknown/malformed source:line targets, identifiers, expressions, garbage) is applied in every distinct canonical "
         "state up to depth 2 (thorough 3); invariant: no panic, result JSON-encodable when the error is nil, debugger lock free afterwards, "
         "released threads run on without fault, a following status answers and is JSON-encodable, StopThreads releases the thread; plus 13 "
@@ -70,7 +74,8 @@ CHECKS = {
    text="(i) every priority sequence in {0,1,2}^<=5 (thorough <=6) queued for one cascade and split over two cascades while the single worker is parked: "
         "pop order must be priority-FIFO (728 cases); (ii) 3 rules x priorities {0,1,2}^3 x failing subset x fail-on-first-error on/off x 'failing rule "
         "added an event first' = 864 cases through ProcessEvent: ascending priority, nothing after the first failure when the flag is set, added events "
-        "still processed, exact error report; (iii) breadth-first search over monitor operation histories {new child(p), activate, skip, finish} on "
+        "still processed, exact error report; (ii-b) the same with priorities from {MinInt64, MinInt64+1, -1, 0, 1, MaxInt64-1, MaxInt64}^3 (5488 cases); "
+        "(iii) breadth-first search over monitor operation histories {new child(p), activate, skip, finish} on "
         "real monitors (up to 4-5 monitors, depth 8-10, canonical state = multiset of (priority, status)): HighestPriority == lowest number among "
         "activated unfinished monitors else -1; (iv) 5 concurrent drivers (2-3 workers, mixed priorities) under every schedule with <= 1-2 preemptions: "
         "no event is taken while a more urgent or older-equal event of its cascade is queued"),
@@ -85,7 +90,8 @@ CHECKS = {
         "# comments (LF, CR LF terminated, containing a lone CR, unterminated), /* */ comments incl. multi-line} x separators {space, LF, CRLF, tab, none}: every token's Pos/Lline/Lpos must equal the "
         "recorded offset and the recomputed line/column (2.8 million cases quick); planted errors after every prefix of <= 3-4 filler "
         "statements/comments: a stray ')' (parser.Error), `1 + \"a\"` (util.RuntimeError) must be reported at the recomputed line/column, "
-        "and statement separation must be unaffected by comments"),
+        "and statement separation must be unaffected by comments: 22 statements starting with every kind of term in every ordered pair x 13 comment "
+        "placements around the line break must parse like the comment-free text"),
  "C19": dict(engine="engine-B", cat="exploration", ref="DESIGN.md 5, 7/C19", note="number conversion is compared only where Go defines it exactly (integral values inside the parameter type's range); Bessel functions of order >= 2^31 are excluded as non-termination inside bridged Go code", tech="bounded exhaustive enumeration of function x argument-vector pairs with independently computed expected conversions",
    text="26 synthetic Go functions (identity per numeric kind int..uint64/uintptr/float32/float64, string, bool, interface, slice, variadic, (T,error) "
         "returning nil / non-nil, two results, no result, no arguments, panicking, nil-map write) and all 62 generated math.* adapters x every argument "
@@ -93,7 +99,8 @@ CHECKS = {
         "lists, maps): no panic escapes, outcome is a value or a non-empty error, Go numbers arrive as float64, identity functions return "
         "float64(K(x)), a trailing Go error arrives as the error, panicking Go functions yield errors; math.* also through ECAL source with the "
         "same verdict and value; the 13 identity functions x 36 boundary numbers (every integer kind's limits and their neighbours, the float64 "
-        "neighbours of 2^63 and 2^64)"),
+        "neighbours of 2^63 and 2^64); a trailing Go error in every position of the result list (only result, second, third), nil and non-nil; a Go "
+        "error object never arrives as a value"),
  "C20": dict(engine="engine-B", cat="exploration", ref="DESIGN.md 5, 7/C20", note="the packed binary is started in-process through RunPackedBinary with the osArgs/osExit/osStderr/handleError package seams (overlay-added setter; the same variables the repository's pack tests use); the interpreter binary is represented by filler bytes", tech="exhaustive sweep over source-binary lengths modulo the scanner's buffer geometry x filler patterns x project trees, with an independent reading of the produced archive",
    text="source binaries of every length in [0, 2 scan periods] (thorough 3; period = 4096 + len(marker) + 11) x 5 filler patterns (no '#', all '#', "
         "'#' at block ends, partial markers straddling block boundaries, trailing newline) x 3 project trees (single file, nested directories with an "
@@ -101,11 +108,12 @@ CHECKS = {
         "L+len(marker) holds every file byte-identical (read independently with archive/zip), RunPackedBinary reaches the exit callback with the "
         "entry file's value, imports see the packed library, never a panic or a fall-through to the normal command line; plus projects whose "
         "imported library has exactly s bytes for s in {2^k-1, 2^k, 2^k+1 : k = 9..17} + {100, 40000, 100000, 200000} x {compressible, incompressible} "
-        "with its only definition at the very end"),
+        "with its only definition at the very end; every history of 2 (thorough 3) packs of 5 projects of very different size into the SAME target; "
+        "RunPackedBinary on the plain (marker-free) source binary hands over to the normal command line"),
  "C07": dict(engine="engine-B", cat="exploration", ref="DESIGN.md 5, 7/C07", note="a goroutine blocked on an abandoned channel is stable, so the goroutine count / dump after the call is not a timing oracle; evaluation of accepted trees is C06's corpus", tech="bounded exhaustive enumeration of token sequences, program mutations and byte strings, with the tree's own consumers (PrettyPrint, Validate) as shape oracle and a goroutine census for leaks",
    text="all token sequences of length <= 3 over every keyword and symbol of the lexer plus identifier/number/string/newline (61 tokens) and of length 4 "
         "over a 34-token subset (thorough: length 4 over all, 5 over the subset: 69 million parses); all single (thorough double) token deletions, "
-        "duplications, swaps and stray bracket insertions of a 15-program corpus; all byte strings of length <= 2 and of length 3-4 over 40 bytes incl. "
+        "duplications, swaps, stray bracket insertions and insertions / substitutions of 7 lexically invalid tokens of a 15-program corpus; all byte strings of length <= 2 and of length 3-4 over 40 bytes incl. "
         "NUL, ESC, DEL, invalid UTF-8. Oracle: terminates, exactly one of tree/error, errors positioned, no nil node, PrettyPrint and Validate do not "
         "panic, no lexer goroutine left blocked"),
  "C14": dict(engine="engine-B", cat="exploration", ref="DESIGN.md 5, 7/C14", note="the text of a value is fmt.Sprint of it; literals with unbalanced markers or ill-formed expressions are only required to yield a string without panic, endless loop or evaluation of substituted data; evaluation runs under a deterministic 3000-visit step budget (harness debugger counting VisitState calls)", tech="bounded exhaustive enumeration of string literals x environments against a one-pass reference function, with a counting harness function as side-effect oracle",
@@ -114,11 +122,13 @@ CHECKS = {
         "quick): every literal yields a string without panic and within the step budget, tick() is called at most as often as it is written in the "
         "literal itself, raw strings come back byte-identical, and well-nested literals equal the one-pass reference (substituted text never rescanned); failing pieces raise(x) and x+1 must not "
         "evaluate the variable's content; re-entrant literals: func w(n) whose literal of 1-3 pieces over {<, >, space, {{n}}, {{w(n - 1)}}} interpolates "
-        "a call to itself, n = 0..3, must equal the recursive reference (the literal node is re-entered while one of its evaluations is in progress)"),
+        "a call to itself, n = 0..3, must equal the recursive reference (the literal node is re-entered while one of its evaluations is in progress); "
+        "pieces include the escaped and the lone backslash (raw strings ending in a backslash); a raw string is never rejected"),
  "C08": dict(engine="engine-B", cat="exploration", ref="DESIGN.md 5, 7/C08", note="tree equality = node kind, token value, identifier flag, raw-vs-interpolating flag and child structure (positions, comments, blank lines ignored); four recorded findings (see known_findings.json) are pinned by the repository's own tests or need a redesign of comment placement", tech="bounded exhaustive enumeration of parseable programs with the round trip parse -> print -> parse -> print as oracle",
    text="every binary operator nested under every other on either side with and without parentheses, prefix operators on every operand and over every "
         "parenthesised pair, inside calls and index expressions (thorough: all operator triples in 5 parenthesisations); a 34-program corpus covering "
-        "every statement kind, each nested in every block kind, with a /* */, # and multi-line comment inserted at every token boundary; comments in the "
+        "every statement kind, each nested in every block kind, with a /* */, #, multi-line and EMPTY comment inserted at every token boundary; blank "
+        "lines (1-2, with comments) between 13 statements that contain percent signs, template delimiters and backslashes; comments in the "
         "plain positions between/after top-level statements; lists and maps of 0-7 entries; sinks with every attribute subset; string literals over 13 "
         "pieces (quotes, escapes, newlines, {{ }}, multi-byte) of length <= 3-4 in the four quoting forms; tool.FormatFiles on a directory tree. "
         "Oracle: printing succeeds, the printed text parses to an equal tree, printing again gives the same text, unparseable files are left alone"),
@@ -132,7 +142,8 @@ CHECKS = {
         "event is never skipped; (4) the scope rule alone: every requirement path against every set of <= 3 scope definitions over a 3-level "
         "name tree, against a lexical reference; (5) purity: a reflective snapshot of the rule index (unexported fields, spare slice capacity) is "
         "unchanged by Match / IsTriggering, which several workers call without a lock; (6) Engine A: two threads adding events (same / different "
-        "names and kinds) to a running processor under every schedule with <= 1-2 preemptions"),
+        "names and kinds) to a running processor under every schedule with <= 1-2 preemptions; (7) the scope decision reached from ECAL: 9 sinks with "
+        "scopematch x 81 scope maps given as fourth argument of addEventAndWait / addEvent"),
  "C03": dict(engine="engine-B", cat="exploration", ref="DESIGN.md 5.2, 7/C03, 9a", note="reference semantics encode only what ecal.md and the property statement define; Unspecified (counted, not compared): zero divisors, % outside non-negative integers, ordering across kinds, equality/membership of containers, like/hasPrefix/hasSuffix on non-strings, membership in non-lists; left-to-right operand evaluation", tech="bounded exhaustive enumeration of expression trees against an independent reference evaluator that works on the generator's own trees (precedence from the stated table, not from the parser)",
    text="all x op y over 13 operands (numbers incl. 0 and fractions, strings, booleans, null, variables, a list) x 19 binary operators; prefix -, +, "
         "not on either operand and over the parenthesised pair; all x op1 y op2 z unparenthesised (reference tree built by precedence climbing over "
@@ -144,7 +155,8 @@ CHECKS = {
         "bare, `e`, \"A\", \"A\" as e, \"A\",\"B\", \"A\" then bare, \"B\" then \"A\" as e) x otherwise (absent, marker, raising) x finally x handler "
         "blocks that raise / return, placed at top level, in loop and function bodies and inside another try's body / except / otherwise "
         "(5 400 programs); every loop kind (range(a,b[,s]) for a,b in 1..3, s in {none,1,2,-1}; lists; condition) x exit statement (none, break, "
-        "continue, raise, return) at every iteration x nesting; if/elif/else chains x all truth assignments. Oracle: marker trace and final "
+        "continue, raise, return) at every iteration x nesting; if/elif/else chains x all truth assignments, and chains in which any guard raises / "
+        "fails at run time (at top level and inside try/except/otherwise/finally). Oracle: marker trace and final "
         "error (type, detail, data) equal the reference"),
  "C06": dict(engine="engine-B", cat="exploration", ref="DESIGN.md 5, 7/C06", note="excluded as non-terminating by specification: sleep with a positive number, valid trigger registrations; evaluation runs under a deterministic step budget (harness debugger counting node visits); a panic on a worker goroutine kills the worker subprocess and is attributed to the case in progress through a side file", tech="bounded exhaustive enumeration of ill-typed and boundary-valued programs with 'no panic reaches the host' as oracle (recover in the evaluating goroutine plus subprocess death for worker goroutines), plus try/except catchability of every raised error",
    text="every binary and prefix operator x U^2 / U over a 20-value universe (null, booleans, 0, +-1, fractions, 1e300, strings, lists, maps, a function) as "
@@ -153,14 +165,18 @@ CHECKS = {
         "U^2 / U^3 and boundary indices; every sink attribute x U; every statematch value x event state value through the real processor; a failing "
         "sink next to a second sink and a second event; every token sequence (C07 generator, length <= 3 full alphabet, 4-5 reduced) that the parser "
         "accepts, validated and evaluated (2 million evaluations quick). Oracle: no panic, no killed worker; an error raised by a statement is "
-        "catchable by try/except; a failing sink does not fail its caller"),
+        "catchable by try/except; a failing sink does not fail its caller. The universe includes NaN and +-Inf; built-in arguments are also reached "
+        "through a call, an index, a field and parentheses (argument expression shapes); caught errors whose trace runs through commented calls"),
  "C05": dict(engine="engine-B", cat="exploration", ref="DESIGN.md 5.2, 7/C05, 9a", note="reading an undefined name yields NULL (pinned by the suite); every block is entered once per program; reads of the argument of add/del after the call are left open; a failing statement inside try has no effect", tech="bounded exhaustive enumeration of programs and container operation sequences against boring reference models written in Go (environment chain, closures as Go values, slice/map model)",
    text="scoping: global definition x outer block kind (if, for, function, mutex, try) x outer statement (none, assignment, let) x inner block kind x inner "
         "statement x late let, probed at three levels (900 programs) against an environment-chain model; functions: parameters x 5 default kinds x 0-3 "
         "arguments, closures, recursion with locals, lexical-not-dynamic resolution, fresh locals, no leaks, first-class use; objects: template "
         "properties, init arguments, this, independent instances, single / multiple / two-level inheritance with super constructors; value vs reference "
         "semantics for all kinds through names and parameters, nested paths, write-then-read for number and string keys; containers: every sequence of "
-        "<= 3 (thorough 4) operations over 14 list/map operations on two aliased names followed by 10 probes, against a Go slice/map model"),
+        "<= 3 (thorough 4) operations over 14 list/map operations on two aliased names followed by 10 probes, against a Go slice/map model; generated "
+        "inheritance shapes (1-3 super templates x with/without own constructor x call order, super[i] by position); varsScope.GetValue / SetValue with "
+        "every dotted container path of <= 3 (thorough 4) segments over {k, z, n, a, x, 0, 1, 2, -1, -3, 5} on a nested list/map structure: reads of "
+        "existing paths, write-then-read, frame condition over all other paths, a failing write changes nothing, never a panic"),
 }
 
 ENGINES = [
